@@ -7,6 +7,7 @@ import ZwVerif.Props.C01Or
 import ZwVerif.Props.C02
 import ZwVerif.Props.C03
 import ZwVerif.Props.C04
+import ZwVerif.Props.C04SubOps
 import ZwVerif.Props.C05
 import ZwVerif.Props.C06
 import ZwVerif.Props.C06DieIt
